@@ -169,4 +169,16 @@ def dictAppend? : Val → Nat → Val → Option Val
     | _ => none
   | _, _, _ => none
 
+/-! ### block.py: the dict form of a block id (str keys as numbers) -/
+
+def kWorkchain : Nat := 0
+def kShard : Nat := 1
+def kSeqno : Nat := 2
+def kRootHash : Nat := 3
+def kFileHash : Nat := 4
+/-- a value stored in an attribute declared `int` (anything else builds an object outside the modelled domain = none) -/
+def asInt? : Val → Option Int | .int i => some i | _ => none
+/-- a value stored in an attribute declared `bytes` -/
+def asBytes? : Val → Option Bytes | .bytes b => some b | _ => none
+
 end TonVerif.Py.Tl
